@@ -137,7 +137,7 @@ class State:
 
 
 class Obs:
-    __slots__ = ("trace", "halt", "stack", "mem", "sto", "steps", "gas", "err", "used")
+    __slots__ = ("trace", "halt", "stack", "mem", "sto", "steps", "gas", "err", "used", "warm_log")
 
     def key(self):
         """What an outside observer can tell (see DESIGN 1.1)."""
@@ -165,12 +165,27 @@ class Machine:
         self.trace = []
         self.gas_n = 0
         self.used = []           # harvested operands (addresses, keys, divisors, ...)
-        self.meter = meter
+        # meter: False | True | "flat_exp" | {"flat_exp": bool, "force_warm": [bool, ...]}
+        self.meter = bool(meter)
+        self.flat_exp = meter == "flat_exp" or (isinstance(meter, dict) and bool(meter.get("flat_exp")))
+        self.force_warm = meter.get("force_warm") if isinstance(meter, dict) else None
+        self.warm_log = []       # per state access (in execution order): was the slot/address already warm?
         self.gas = 0
         self.warm_slots = set()
         self.warm_addrs = set()
         self.mem_words = 0
         self.imm = {}
+
+    def access(self, table, k):
+        """warm/cold decision of the next state access; with force_warm the decision of the i-th access is
+        taken from the given list (the alias structure observed on another state) instead of the values"""
+        real = k in table
+        table.add(k)
+        i = len(self.warm_log)
+        self.warm_log.append(real)
+        if self.force_warm is not None and i < len(self.force_warm):
+            return self.force_warm[i]
+        return real
 
     # --- memory
     def _init_byte(self, a):
@@ -316,7 +331,7 @@ def observe(block, state, meter=False, max_steps=100000):
                     m.used.extend(args)
                 if meter and name == "EXP":
                     # meter == "flat_exp": the tool's static price (60 = one exponent byte) instead of EIP-160
-                    m.gas += 50 if meter == "flat_exp" else 50 * ((args[1].bit_length() + 7) // 8)
+                    m.gas += 50 if m.flat_exp else 50 * ((args[1].bit_length() + 7) // 8)
                 st.insert(0, opsem.apply(name, args))
             elif name in ENV0:
                 st.insert(0, m.env(name))
@@ -325,8 +340,7 @@ def observe(block, state, meter=False, max_steps=100000):
                 m.used.append(a)
                 if meter and name in ("BALANCE", "EXTCODESIZE", "EXTCODEHASH"):
                     ad = a & ADDR_MASK
-                    m.gas += 100 if ad in m.warm_addrs else 2600
-                    m.warm_addrs.add(ad)
+                    m.gas += 100 if m.access(m.warm_addrs, ad) else 2600
                 st.insert(0, m.env(name, a))
             elif name == "GAS":
                 st.insert(0, prf_word("gas", m.seed, m.gas_n))
@@ -352,8 +366,7 @@ def observe(block, state, meter=False, max_steps=100000):
                 k = st.pop(0)
                 m.used.append(k)
                 if meter:
-                    m.gas += 100 if k in m.warm_slots else 2100
-                    m.warm_slots.add(k)
+                    m.gas += 100 if m.access(m.warm_slots, k) else 2100
                 st.insert(0, m.sread(k))
             elif name == "SSTORE":
                 k = st.pop(0)
@@ -362,9 +375,8 @@ def observe(block, state, meter=False, max_steps=100000):
                 if meter:
                     # EIP-2929 + EIP-2200/3529 (no refunds): original = value at the start of the block / after
                     # the last call, current = value now
-                    if k not in m.warm_slots:
+                    if not m.access(m.warm_slots, k):
                         m.gas += 2100
-                        m.warm_slots.add(k)
                     cur = m.sread(k)
                     saved = m.stow.pop(k, None)
                     orig_v = m.sread(k)
@@ -490,6 +502,7 @@ def observe(block, state, meter=False, max_steps=100000):
     o.sto = dict(m.sto_final)
     o.steps = steps
     o.gas = m.gas
+    o.warm_log = m.warm_log
     o.err = None
     o.used = m.used
     return o
